@@ -80,7 +80,10 @@ def norm_meta(md):
 def observe(ds):
     """full API-level state: {bid: (meta, sorted event contents)}; also cross-checks listing vs metadata()"""
     probs = []
-    lst = ds.buckets()
+    try:
+        lst = ds.buckets()
+    except Exception as e:  # the listing itself must not fail, whatever was stored before
+        return {}, [("listing-raised", f"buckets() raised {type(e).__name__}: {e}")]
     out = {}
     for bid in lst:
         m1 = norm_meta(lst[bid])
@@ -180,7 +183,9 @@ def apply(w, op):
             unchanged = True
             if not present:
                 want_exc = "ValueError"
-            (w.stale[b] if op[2] == "stale" else ds[b]).metadata()
+            md = (w.stale[b] if op[2] == "stale" else ds[b]).metadata()
+            # what a handle -- also one obtained before a delete / re-create -- describes is the bucket as it is NOW
+            w.described = norm_meta(md)
         elif k == "insert":
             e, c = ev_content(_G["emb"], b)
             if present:
@@ -194,8 +199,8 @@ def apply(w, op):
             if not present:
                 want_exc = "any"
             h = w.stale[b] if op[2] == "stale" else ds[b]
-            h.get(-1)
-            h.get_eventcount()
+            w.read_events = sorted(S.ev_tuple(e)[1:] for e in h.get(-1))
+            w.read_count = h.get_eventcount()
         else:
             raise AssertionError(op)
     except Exception as e:
@@ -231,7 +236,7 @@ def enabled(w, subsets, extend):
             # new state from which delete / re-create must still behave (seeded stale read-side cache)
             ops.append((("lookup", b), True))
             ops.append((("describe", b, "fresh"), True))
-            ops.append((("describe", b, "stale"), False))
+            ops.append((("describe", b, "stale"), True))
             ops.append((("read", b, "stale"), True))
             if len(w.model[b]["events"]) < 1:
                 ops.append((("insert", b, "fresh"), True))
@@ -240,6 +245,21 @@ def enabled(w, subsets, extend):
                 for s in subsets:
                     ops.append((("update", b, s), s in extend))
     return ops
+
+
+def handle_state(w):
+    """plain attributes of the Bucket handle objects (registered ones and the stale ones the driver
+    keeps): a handle that remembers something (seeded: cached metadata) is state as well"""
+    out = []
+    for tag, d in (("registered", getattr(w.ds, "bucket_instances", {})), ("stale", w.stale)):
+        for name in sorted(d):
+            h = d[name]
+            attrs = {k: v for k, v in vars(h).items() if k not in ("ds", "logger")}
+            # ... and whether the handle the driver kept IS the one the datastore has registered now
+            # (after delete + re-create it is not; the states were merged without this bit)
+            same = tag == "stale" and getattr(w.ds, "bucket_instances", {}).get(name) is h
+            out.append((tag, name, S._plain(attrs), same))
+    return tuple(out)
 
 
 def replay(backend, wdir, hist):
@@ -256,10 +276,11 @@ def raw(ds):
 def check_op(w, op):
     ds = w.ds
     raw0 = raw(ds)
+    w.described = w.read_events = w.read_count = None
     want, got, unchanged = apply(w, op)
     # canonical form of the state a replay of (history + op) reconstructs: taken BEFORE the
     # observation below, whose reads may themselves change hidden state (flush, fill caches)
-    w.canon_after = (S.canon_full(ds, False), tuple(sorted(w.stale)))
+    w.canon_after = (S.canon_full(ds, False), tuple(sorted(w.stale)), handle_state(w))
     probs = []
     if want == "any":
         pass
@@ -268,6 +289,17 @@ def check_op(w, op):
             probs.append((f"{op[0]}-raised-{got}", f"{op} raised {getattr(w, 'last_exc', got)}"))
         else:
             probs.append((f"{op[0]}-absent-wrong-error", f"{op} on a bucket that does not exist: expected {want}, got {got or 'no exception'}"))
+    if op[0] == "describe" and got is None and op[1] in w.model and w.described is not None:
+        wantm = w.model[op[1]]["meta"]
+        for k in ("id", "type", "client", "hostname", "created", "data"):
+            if w.described[k] != wantm[k]:
+                probs.append((f"described-{k}-wrong-via-{op[2]}-handle", f"{op}: handle describes {k} = {w.described[k]!r}, the bucket's is {wantm[k]!r}"))
+                break
+        if "name" in wantm and w.described["name"] != wantm["name"]:
+            probs.append((f"described-name-wrong-via-{op[2]}-handle", f"{op}: {w.described['name']!r} vs {wantm['name']!r}"))
+    if op[0] == "read" and got is None and op[1] in w.model and w.read_events is not None:
+        if w.read_events != sorted(w.model[op[1]]["events"]) or w.read_count != len(w.model[op[1]]["events"]):
+            probs.append((f"read-wrong-via-{op[2]}-handle", f"{op}: handle reads {w.read_events} (count {w.read_count}), the bucket holds {sorted(w.model[op[1]]['events'])}"))
     if unchanged and raw(ds) != raw0:
         probs.append((f"{op[0]}-changed-state", f"{op} must change nothing but the tables changed"))
     obs, p2 = observe(ds)
@@ -283,7 +315,7 @@ def _expand(hist):
     u = Unit()
     wdir = ctx.wdir()
     w = replay(backend, wdir, hist)
-    self_canon = (S.canon_full(w.ds, False), tuple(sorted(w.stale)))
+    self_canon = (S.canon_full(w.ds, False), tuple(sorted(w.stale)), handle_state(w))
     ops = enabled(w, c["subsets"], EXTEND_SUBSETS)
     succ = []
     for op, ext in ops:
